@@ -228,7 +228,7 @@ theorem act_ne_enter (i : Nat) : s!"act:{i}" ≠ "enter" := by
 
 theorem raise_ne_enter (k : ExcKind) : (match k with
     | .exc => "raise:exc" | .abortTest => "raise:AbortTest" | .abortSuite => "raise:AbortSuite"
-    | .abortAll => "raise:AbortAllTests" | .interrupted => "raise:interrupted") ≠ "enter" := by
+    | .abortAll => "raise:AbortAllTests" | .interrupted => "raise:interrupted" | .baseExc => "raise:exc") ≠ "enter" := by
   cases k <;> decide
 
 theorem tra_execActs_nil (role : Nat) (u : UnitId) (i fuel : Nat) (hu : UActs P u) :
@@ -255,7 +255,7 @@ def actStep (fuel : Nat) (role : Nat) (u : UnitId) (i : Nat) : Act → M (Option
     sop role (.threadCreate c)
     sop c .threadRun
     let r ← execScript fuel c (.th u i) inner
-    if r.isSome then
+    if threadLogs r then
       sop c (.log .error "")
     sop c .threadEnd
     pure none
@@ -269,7 +269,7 @@ def actStep (fuel : Nat) (role : Nat) (u : UnitId) (i : Nat) : Act → M (Option
 
 def raiseName : ExcKind → String
   | .exc => "raise:exc" | .abortTest => "raise:AbortTest" | .abortSuite => "raise:AbortSuite"
-  | .abortAll => "raise:AbortAllTests" | .interrupted => "raise:interrupted"
+  | .abortAll => "raise:AbortAllTests" | .interrupted => "raise:interrupted" | .baseExc => "raise:exc"
 
 theorem execActs_succ (fuel : Nat) (role : Nat) (u : UnitId) (i : Nat) (a : Act) (rest : List Act) :
     execActs (fuel + 1) role u i (a :: rest) = (do
